@@ -201,6 +201,52 @@ def code_to_spec(ctx, Grid, ngrids):
     ctx.part("code_to_spec", grids=len(recs), rejected=len(res.tuples("REJECT")))
 
 
+def huge_grid(ctx, Grid):
+    """a raster with more than 2^31 cells (47000 x 46000 int8, lazily allocated: never touched): the numbering relations of
+    GridGeom.tla (row = c div ncols, col = c mod ncols, centre, neighbours) evaluated in Python integers for cell numbers around
+    2^31 and at the end of the grid.  TLC integers are 32-bit: the formulas are the specification's, the evaluation is the harness's."""
+    nr, nc = 47000, 46000
+    try:
+        g = Grid("huge", nc, nr, dtype=np.int8)
+    except MemoryError:
+        ctx.notes.append("huge grid not allocated (MemoryError): cell numbers beyond 2^31 not exercised")
+        return
+    n = nr * nc
+    cells = [0, 1, nc - 1, nc, 2 ** 31 - nc - 1, 2 ** 31 - 2, 2 ** 31 - 1, 2 ** 31, 2 ** 31 + 1, 2 ** 31 + nc + 5, n - nc - 2, n - 2, n - 1]
+    arr = np.array(cells, dtype=np.int64)
+    rc = g.cell2rowcol(arr)
+    xy = g.cell2coord(arr)
+    back = g.coord2cell(xy)
+    case = {"nrows": nr, "ncols": nc}
+    for k, c in enumerate(cells):
+        row, col = divmod(c, nc)
+        if [int(rc[k][0]), int(rc[k][1])] != [row, col]:
+            ctx.violation("cell2rowcol:row-major", "cell %d of a %dx%d grid -> %s expected %s" % (c, nr, nc, rc[k].tolist(), [row, col]), dict(case, cell=c))
+            return
+        if xy[k][0] != col + 0.5 or xy[k][1] != (nr - 1 - row) + 0.5:
+            ctx.violation("cell2coord:centre", "cell %d of a %dx%d grid -> %s" % (c, nr, nc, xy[k].tolist()), dict(case, cell=c))
+            return
+        if int(back[k]) != c:
+            ctx.violation("coord2cell:centre-roundtrip", "coord2cell(cell2coord(%d)) = %d on a %dx%d grid" % (c, int(back[k]), nr, nc), dict(case, cell=c))
+            return
+        exp = []
+        for dy in (-1, 0, 1):
+            for dx in (-1, 0, 1):
+                r2, c2 = row + dy, col + dx
+                exp.append(-1 if (dy == 0 and dx == 0) or not (0 <= r2 < nr and 0 <= c2 < nc) else r2 * nc + c2)
+        nb = [int(v) for v in g.neighbours(c)]
+        if nb != exp:
+            ctx.violation("neighbours:positions", "cell %d of a %dx%d grid -> %s expected %s" % (c, nr, nc, nb, exp), dict(case, cell=c))
+            return
+    for k in (n, n + 1, -1):
+        rck = g.cell2rowcol([k])[0]
+        if [int(rck[0]), int(rck[1])] != [-1, -1]:
+            ctx.violation("invalid-cell:not-flagged", "cell %d of a %dx%d grid -> rowcol %s" % (k, nr, nc, rck.tolist()), dict(case, cell=k))
+            return
+    ctx.part("huge_grid", nrows=nr, ncols=nc, cells_probed=len(cells))
+    ctx.evaluations += 4 * len(cells)
+
+
 def run(ctx):
     ctx.code()
     from hydrodiy.gis.grid import Grid
@@ -210,6 +256,7 @@ def run(ctx):
                 "validated by GridGeomTrace.tla. distinct = (shape, geometry); non-trivial = more than one cell.")
     spec_to_code(ctx, Grid)
     code_to_spec(ctx, Grid, 120 if ctx.tier == "quick" else 1500)
+    huge_grid(ctx, Grid)
     ctx.exhaustive = True
     ctx.assumptions += ["geometries restricted to exactly representable ones (cell size a power of two, origin a multiple of it): "
                         "rounding never decides the cell"]
